@@ -456,6 +456,18 @@ class Effects:
                         stack.append((t, chain + (t.qname,)))
         return out
 
+    def prims_reached(self, fn: FunctionInfo, n: Optional[Node] = None) -> Set[str]:
+        """Primitive names (transitively) invoked by fn, or by the callees of call node n of fn."""
+        out: Set[str] = set()
+        starts = self.callees(fn, n) if n is not None else [fn]
+        if n is not None and n.callee is not None and n.callee.kind == "prim":
+            out.add(n.callee.name)
+        for st in starts:
+            for f, m, _c in self.transitive_calls(st):
+                if m.callee is not None and m.callee.kind == "prim":
+                    out.add(m.callee.name)
+        return out
+
     def reaches_function(self, fn: FunctionInfo, target_qnames: Set[str], n: Optional[Node] = None) -> bool:
         """Does (call node n of fn | any call of fn) transitively invoke one of target functions?"""
         starts: List[FunctionInfo] = []
